@@ -20,7 +20,7 @@ def parseTSet (s : String) : Option TSet :=
   | _ => none
 
 def parseWs (s : String) : Res :=
-  if s = "-" then ⟨[]⟩ else ⟨s.toList.map (· == '1')⟩
+  if s = "-" then ⟨[]⟩ else ⟨s.toList.map (fun c => c == '1' || c == '2')⟩
 
 def parseOp (name al ng x : String) : Option Op := do
   let a ← parseBool al
